@@ -120,3 +120,23 @@ Proof.
   - apply drop_while_eq_fill; exact H.
   - rewrite rev_app_distr, rev_repeat_byte, drop_while_eq_fill by exact H. apply rev_involutive.
 Qed.
+
+(* only the [w] low-order bytes of the number matter *)
+Lemma enc_be_mod w cw n : (w <= cw)%nat -> enc_be w (n mod pow256 cw) = enc_be w n.
+Proof.
+  revert cw n. induction w as [|w IH]; intros cw n H; [reflexivity|].
+  destruct cw as [|cw]; [lia|]. cbn [enc_be].
+  rewrite pow256_S.
+  pose proof (pow256_pos cw) as Hp.
+  assert (H256 : 256 <> 0) by lia. assert (Hpc : pow256 cw <> 0) by lia.
+  rewrite (N.mod_mul_r n 256 (pow256 cw)) by assumption.
+  f_equal.
+  - replace ((n mod 256 + 256 * ((n / 256) mod pow256 cw)) / 256) with ((n / 256) mod pow256 cw).
+    + apply IH. lia.
+    + rewrite (N.mul_comm 256), N.div_add by assumption. rewrite (N.div_small (n mod 256) 256); [lia|].
+      apply N.mod_lt. assumption.
+  - f_equal. rewrite (N.mul_comm 256), N.mod_add by assumption. apply N.mod_mod. assumption.
+Qed.
+
+Lemma enc_int_mod w cw le n : (w <= cw)%nat -> enc_int w le (n mod pow256 cw) = enc_int w le n.
+Proof. intros H. unfold enc_int. rewrite (enc_be_mod w cw n H). reflexivity. Qed.
